@@ -332,7 +332,8 @@ def make_witness(case, r):
 def process_batch(batch):
     st = WorkerStats()
     work = common.scratch_dir('c12')
-    shrunk = 0
+    shrunk = shrunk_known = 0
+    found_shrunk, found_raw = [], []
     for r in evaluate(batch, work):
         case, m = r['case'], r['model']
         st.case({'case': sellib.render(case)}, nontrivial(case, m))
@@ -345,18 +346,26 @@ def process_batch(batch):
         if r['viol']:
             known = violation_kind(r)[0]
             # shrink the first few of each kind a worker meets; the rest are reported as found
-            if (known and shrunk < 1) or (not known and shrunk < 4):
-                shrunk += 1
-                small, r2 = shrink(case, work)
+            did = False
+            if (known and shrunk_known < 1) or (not known and shrunk < 2):
+                if known:
+                    shrunk_known += 1
+                else:
+                    shrunk += 1
+                did = True
+                small, r2 = shrink(case, work, budget=40)
             else:
                 small, r2 = case, r
             w = make_witness(small, r2) if r2['viol'] else make_witness(case, r)
-            st.violation(w, 'monitor', 'C12 statement false on the implementation (%s tier): %s' % (w['tier'], w['failed']))
+            (found_shrunk if did else found_raw).append(
+                (w, 'monitor', 'C12 statement false on the implementation (%s tier): %s' % (w['tier'], w['failed'])))
         else:
             for d in r['div']:
                 st.divergence({'case': case, 'rendered': sellib.render(case), 'api': r['api'],
                                'cli': r['cli'] and {k: r['cli'][k] for k in ('exit', 'error', 'processed', 'ran')},
                                'model_of_code': m.get('head')}, 'correspondence M8: ' + d)
+    for w, f, n in found_shrunk + found_raw:       # shrunk witnesses first: they become the replay files
+        st.violation(w, f, n)
     return st
 
 
